@@ -186,6 +186,9 @@ func execModelAttack(w *world.World, s Step) bool {
 			version = 2
 		}
 	}
+	if s.Z == 2 || s.Z == 3 {
+		version = s.Z
+	}
 	var st, rt uint32
 	if version == 3 {
 		st, rt = e.tag, pr.OurTag
